@@ -118,6 +118,8 @@ def chk_adsb12(case, note):
     for top3, low36, aa, df, hc, ca in case["ctx"]:
         me = (tc << 51) | (top3 << 48) | (field << 36) | low36
         msg = frames.tohex(frames.df17(aa, me, ca=ca, df=df), 112, hc)
+        if (ca ^ field) & 1:
+            variants.prelude(pms, msg)   # helpers on the same string, and other message types of the same aircraft, decoded first
         r = call(pms.adsb.altitude, msg)
         r5 = call(pms.adsb.altitude05, msg)
         if 5 <= tc <= 8:
